@@ -157,6 +157,8 @@ func execNsec(f []string) vlib.Res {
 		return vlib.Res{Impl: "n=" + itoa(len(curSet))}
 	case "auth":
 		return execAuthNsec(f)
+	case "authu":
+		return execAuthUnsigned(f, false)
 	case "truth":
 		c, _ := curZone.answerClass(parseName(f[2]), uint16(atoi(f[3])))
 		return vlib.Res{Impl: c}
